@@ -48,16 +48,33 @@ Qed.
 (* the run-time and the compile-time form of subspan designate the same window *)
 Theorem sp_static_dynamic_agree : forall s o c, size_ok s -> sp_consistent s -> 0 <= o <= s_size s ->
   match c with Some n => 0 <= n <= s_size s - o | None => True end ->
-  exists r, sp_sub_d s o c = Ok r /\ s_off r = s_off (sp_sub_s s o c) /\ s_size r = s_size (sp_sub_s s o c).
+  exists r r', sp_sub_d s o c = Ok r /\ sp_sub_s s o c = Ok r' /\ s_off r = s_off r' /\ s_size r = s_size r'.
 Proof.
   intros s o c Hs Hcons Ho Hc. unfold size_ok in Hs. unfold sp_consistent in Hcons.
   unfold sp_sub_d, sp_sub_s, subspan_extent, mk_span.
   replace (o <=? s_size s) with true by lia. cbn [negb].
   destruct c as [n|].
   - rewrite (szw_id (s_size s - o)) by lia. replace (n <=? s_size s - o) with true by lia.
-    eexists. split; [reflexivity|]. cbn [s_off s_size s_ext]. split; reflexivity.
-  - eexists. split; [reflexivity|]. cbn [s_off s_size s_ext]. split; [reflexivity|].
+    eexists. eexists. split; [reflexivity|]. split; [reflexivity|]. cbn [s_off s_size s_ext]. split; reflexivity.
+  - eexists. eexists. split; [reflexivity|]. split; [reflexivity|]. cbn [s_off s_size s_ext]. split; [reflexivity|].
     destruct (s_ext s) as [x|]; [subst x; reflexivity | reflexivity].
+Qed.
+
+(* ... and for EVERY offset and count (no hypothesis at all) the two forms have the same outcome: both fire a
+   precondition, or both return the same window *)
+Theorem sp_static_dynamic_same_outcome : forall s o c,
+  match sp_sub_d s o c, sp_sub_s s o c with
+  | Ok r, Ok r' => s_off r = s_off r' /\ (sp_consistent s -> s_size r = s_size r') /\ s_ext r = None
+                   /\ s_ext r' = subspan_extent o c (s_ext s)
+  | Contract, Contract => True
+  | _, _ => False
+  end.
+Proof.
+  intros s o c. unfold sp_sub_d, sp_sub_s.
+  destruct (o <=? s_size s); cbn [negb]; [|exact I].
+  destruct c as [n|]; [destruct (n <=? szw (s_size s - o)); [|exact I]|];
+    unfold mk_span, subspan_extent, sp_consistent; cbn [s_off s_size s_ext]; repeat split;
+    destruct (s_ext s) as [x|]; intros; subst; reflexivity.
 Qed.
 
 (** * as_bytes: the byte view covers exactly the object representations of the span's elements *)
